@@ -232,7 +232,11 @@ Vals(t, b) ==
                    THEN \* wide (the missing bits need a second byte): nothing / everything / alternately missing
                         {[i \in 1 .. n |-> NA], [i \in 1 .. n |-> Pick(Vals(t.ts[i], 0))],
                          [i \in 1 .. n |-> IF i % 2 = 0 THEN NA ELSE Pick(Vals(t.ts[i], 0))],
-                         [i \in 1 .. n |-> IF i % 2 = 1 THEN NA ELSE Pick(Vals(t.ts[i], 0))]}
+                         [i \in 1 .. n |-> IF i % 2 = 1 THEN NA ELSE Pick(Vals(t.ts[i], 0))],
+                         \* only the last / only the first missing: fields i and i + 8 differ (an encoder that indexes the value
+                         \* with the position inside the byte instead of the field number repeats the first byte)
+                         [i \in 1 .. n |-> IF i = n THEN NA ELSE Pick(Vals(t.ts[i], 0))],
+                         [i \in 1 .. n |-> IF i = 1 THEN NA ELSE Pick(Vals(t.ts[i], 0))]}
                    ELSE OneFull([i \in 1 .. n |-> sub(t.ts[i])], [i \in 1 .. n |-> small(t.ts[i])])
          IN  IF t.k = "tuple" THEN {VTup(x) : x \in xs} ELSE {VStruct(t.ns, x) : x \in xs}
     [] t.k = "interval" ->
